@@ -246,6 +246,29 @@ func init() {
 			})
 		}
 	}
+	// killed while still in Init (the pid is known to the killer from Init itself): either the kill finds no such
+	// process yet and it lives on, or it terminates once and handles nothing afterwards
+	c05Scenario("kill-during-init", c05opt{qb: 2, tb: 3, causes: []string{"kill"}}, func(w *World) {
+		r := &rec{name: "R"}
+		w.recs["R"] = r
+		var pid gen.PID
+		known := false
+		w.ex.Thread("SP", func() {
+			p, err := w.n.Spawn(func() gen.ProcessBehavior { return &probe{} }, gen.ProcessOptions{}, probeCfg{rec: r, onInit: func(p *probe) error {
+				pid, known = p.PID(), true
+				p.Send(p.PID(), "self1")
+				p.Send(p.PID(), "self2")
+				return nil
+			}})
+			if err == nil {
+				w.pids["R"] = p
+			}
+		})
+		w.ex.Thread("K", func() {
+			vsched.Block(vsched.OpUser, 0, func() bool { return known })
+			w.n.Kill(pid)
+		})
+	})
 	// pairs of causes racing
 	pair := func(name string, causes []string, a, b func(w *World, pid gen.PID)) {
 		c05Scenario(name, c05opt{qb: 2, tb: 3, causes: causes, mustEnd: true}, func(w *World) {
